@@ -266,6 +266,10 @@ func (o *Once) Do(f func()) {
 // whose Get behaviour is an explored data choice.
 var PoolRecycle = false
 
+// PoolPolicy, when not empty, fixes what a recycling Pool hands out instead of
+// making it an explored choice: "lifo" (most recently put) or "fifo" (oldest).
+var PoolPolicy = ""
+
 // Pool mirrors sync.Pool.
 type Pool struct {
 	New func() interface{}
@@ -296,7 +300,9 @@ func (p *Pool) Get() interface{} {
 				alts = 2
 			}
 			c := 0
-			if vsched.Exploring() {
+			if PoolPolicy == "fifo" {
+				c = 1
+			} else if PoolPolicy == "" && vsched.Exploring() {
 				c = vsched.Choose(alts, "Pool.Get", false)
 			}
 			if n == 1 && c == 1 {
